@@ -6,6 +6,7 @@ import Bp7.Driver.Notation
 import Bp7.Model.Hex
 import Bp7.Model.Admin
 import Bp7.Model.Time
+import Bp7.Model.Json
 import Bp7.Spec.Rfc9171
 namespace Bp7.Driver
 open Bp7
@@ -168,6 +169,12 @@ def answer (line : String) : String :=
   | "enc" :: rest =>
     match parseBundle rest with
     | some (b, []) => let (b', bytes) := b.toCbor; "ok " ++ hexOfBytes bytes ++ " " ++ showBundle b'
+    | _ => "bad-op"
+  | "json.enc" :: rest =>
+    match parseBundle rest with
+    | some (b, []) =>
+      let (b', j) := b.toJson
+      "ok " ++ hexOfBytes (printJ j) ++ " " ++ showBundle b' ++ " rt=" ++ resStr showBundle (Bundle.fromJson j)
     | _ => "bad-op"
   | "spec.enc" :: rest =>
     match parseBundle rest with
